@@ -153,6 +153,9 @@ def generate(rng, tier, idx):
         elif r < 0.22:
             sc['stderr_nonutf'] = True
         return sc
+    if rng.random() < 0.08:
+        return {'prop': ID, 'mode': 'sub', 'order_key': '0', 'sub_kind': rng.choice(['good', 'tampered', 'tampered', 'unknown-signer']),
+                'pos': rng.choice([None, rng.randrange(0, 60)]), 'sub_op': rng.choice(['verify', 'lookup'])}
     key = rng.choice(['signer', 'signer', 'signer', 'expiring', 'expiring', 'revoked', 'unknown', 'other-only',
                       'subkey', 'subkey-forged', 'subkey-unsigned'])
     sc = {'prop': ID, 'mode': 'real', 'key': key, 'order_key': '0',
@@ -583,7 +586,59 @@ def exec_real(sc):
     return res
 
 
+def exec_sub(sc):
+    """A SUB-Manifest that carries an OpenPGP signature, referenced from an (unsigned) parent with matching size and
+    digest: the signature is owed a verdict all the same."""
+    from gemato.recursiveloader import ManifestRecursiveLoader
+    import hashlib
+    violations = []
+    kind = sc['sub_kind']
+    body = 'DATA f 4 SHA256 %s\n' % hashlib.sha256(b'data').hexdigest()
+    signed = GS.clearsign(body, key='other' if kind == 'unknown-signer' else 'signer')
+    if kind == 'tampered':
+        signed = signed.replace('DATA f 4', 'DATA f 4 ', 1)       # one blank more inside the signed text
+        if sc.get('pos') is not None:
+            i_ = signed.index('SHA256 ') + 7 + sc['pos'] % 60
+            signed = signed[:i_] + ('0' if signed[i_] != '0' else '1') + signed[i_ + 1:]
+            body = None
+    with World(sc) as w:
+        os.makedirs(os.path.join(w.root, 'sub'))
+        with open(os.path.join(w.root, 'sub', 'f'), 'w') as f:
+            f.write('data')
+        with open(os.path.join(w.root, 'sub', 'Manifest'), 'w') as f:
+            f.write(signed)
+        sb = signed.encode('utf8')
+        with open(os.path.join(w.root, 'Manifest'), 'w') as f:
+            f.write('MANIFEST sub/Manifest %d SHA256 %s\n' % (len(sb), hashlib.sha256(sb).hexdigest()))
+        with GS.RealPeer(faketime=GS.BEFORE_EXPIRY):
+            env = IsolatedGPGEnvironment()
+            try:
+                env.import_key(io.BytesIO(GS.keydata('signer.pub.asc')))
+                top = os.path.join(w.root, 'Manifest')
+                op = sc.get('sub_op', 'verify')
+                if op == 'verify':
+                    r = call(lambda: ManifestRecursiveLoader(top, verify_openpgp=True, openpgp_env=env).assert_directory_verifies(''))
+                else:
+                    r = call(lambda: ManifestRecursiveLoader(top, verify_openpgp=True, openpgp_env=env).find_path_entry('sub/f') is not None)
+            finally:
+                env.close()
+    what = 'sub-Manifest signed (%s), matching MANIFEST entry in an unsigned parent, %s' % (kind, sc.get('sub_op', 'verify'))
+    good = kind == 'good'
+    if r[0] == 'INTERNAL':
+        violations.append(viol('sig.internal-error', '%s: %s' % (what, describe(r)), sig=r[1]))
+    elif good and not (r[0] == 'ok' and r[1] is True):
+        violations.append(viol('sig.good-rejected', '%s: %s' % (what, describe(r)), sig='sub'))
+    elif not good and r[0] == 'ok':
+        violations.append(viol('sig.accepted', '%s: loaded and used without any OpenPGP verdict' % what, sig='sub:' + kind))
+    elif not good and not (r[0] == 'GE' and str(r[1]).startswith('OpenPGP')):
+        violations.append(viol('sig.wrong-failure', '%s: %s' % (what, describe(r)), sig='sub:%s' % r[1]))
+    return mk_result([], violations, True, outcome=['sub', kind, r[0], r[1] if r[0] != 'ok' else 'ok'],
+                     counters={'real.sub-manifest.' + kind: 1}, ops=1)
+
+
 def execute(sc):
     if sc.get('mode') == 'fake':
         return exec_fake(sc)
+    if sc.get('mode') == 'sub':
+        return exec_sub(sc)
     return exec_real(sc)
